@@ -7,6 +7,8 @@ CONSTANTS
   Cps = {0, 1}
   Afls = {0, 1, 180, 181, 182, 183, 184, 202, 203, 255}
   Fills = {0, 66, 255}
+  Pres = {0, 100}
+  Cuts = {0, 1}
 INVARIANTS SizeLaw
 CONSTRAINT Emit
 CHECK_DEADLOCK FALSE
